@@ -170,7 +170,44 @@ def run(ck):
         for x in walk(s["value"]):
             if is_call(x, LM + "::attribute") and obj_is_param(skip_copies(x), fn, 0) and x.get("args") and const_str(x["args"][0]) is not None:
                 slots.setdefault(const_str(x["args"][0]), []).append(s)
-    slot_names = sorted(slots)
+    # dedicated slots filled through a helper of the repository: helper(target, key, attrs, name) { target[key] = attrs.value(name)... }
+    helper_slots = {}
+    for c in fn.calls():
+        hf = F.fns.get(c.get("fn"))
+        if hf is None or hf.body is None or any(a.get("id") == loop["id"] for a in fn.ancestors(c)) or c.get("ck") == "member":
+            continue
+        cargs = c.get("args", [])
+        for hs_ in json_sets(hf):
+            # which parameter is the target object / the attribute name
+            tpi = [i for i, p_ in enumerate(hf.params) if p_["decl"] == hs_["obj"]]
+            if not tpi or hs_["value"] is None:
+                continue
+            npi = None
+            for x in walk(hs_["value"]):
+                if x.get("k") == "ref" and x.get("dk") == "local":
+                    x = deref_local(hf, x)
+                for y in walk(x):
+                    if y.get("k") == "call" and name_is(y.get("callee"), ("value", "attribute", "operator[]", "take")) and y.get("args"):
+                        a0 = skip_copies(y["args"][-1] if name_is(y.get("callee"), "operator[]") else y["args"][0])
+                        for i, p_ in enumerate(hf.params):
+                            if a0.get("k") == "ref" and a0.get("decl") == p_["decl"]:
+                                npi = i
+            if npi is None or npi >= len(cargs) or tpi[0] >= len(cargs):
+                continue
+            nm = const_str(cargs[npi])
+            tgt = skip_copies(cargs[tpi[0]])
+            if nm is None or tgt.get("k") != "ref":
+                continue
+            ck.touch(hf)
+            gh = Graph(hf)
+            hsite = gh.site_of(hs_["node"])
+            namep = hf.params[npi]["decl"]
+            present_test = lambda n, namep=namep: is_call(n, ("contains", "hasAttribute")) and skip_copies(n).get("args") and is_ref_to(skip_copies(n)["args"][0], namep)
+            written_when_present = gh.must_pass({hsite}, keep=gh.projector(atom_eq(present_test, True)))
+            guards = [describe(i.get("cond"))[:60] for i in hf.find(lambda n: n.get("k") == "if")]
+            helper_slots.setdefault(nm, []).append({"node": c, "obj": tgt.get("decl"), "key": const_str(cargs[[i for i, p_ in enumerate(hf.params) if "QString" in p_.get("type", "") and i not in (npi,)][0]]) if len(cargs) > 2 else None,
+                                                   "helper": hf, "always": written_when_present, "guards": guards})
+    slot_names = sorted(set(slots) | set(helper_slots))
     ins, skp = goes_to_extra("\0other")
     ck.ob("C18-O2", sitestr(fn, generic[0]["node"]), ins and not skp, "an attribute without a dedicated slot is always inserted under extra" if (ins and not skp) else
           "an ordinary attribute can be left out of extra", key="format|other-not-inserted")
@@ -191,6 +228,18 @@ def run(ck):
     for name in slot_names:
         has = lambda n, name=name: is_call(n, LM + "::hasAttribute") and obj_is_param(skip_copies(n), fn, 0) and const_str(skip_copies(n)["args"][0]) == name
         keep = g.projector(atom_eq(has, True))
+        if name in helper_slots and name not in slots:
+            hs = helper_slots[name]
+            h0 = hs[0]
+            called = g.must_pass({g.site_of(h0["node"])}, keep=keep)
+            att, why = attached_ok(h0["obj"], h0["node"])
+            allok = called and h0["always"] and len(hs) == 1 and att
+            hname = h0["helper"].name.split("::")[-1]
+            ck.ob("C18-O2", sitestr(fn, h0["node"]), allok, "'%s' -> slot '%s' through %s(), written whenever the attribute is present, attached to the event" % (name, h0["key"], hname) if allok else
+                  "slot of '%s' (through %s): the slot is %s, while the name is always skipped under extra — such an attribute appears nowhere in the event; single-slot=%s, %s" %
+                  (name, hname, "not written for every present attribute (guards in the helper: %s)" % h0["guards"] if not h0["always"] else "not filled on every path" if not called else "filled", len(hs) == 1, why),
+                  key="format|slot|%s" % name)
+            continue
         ss = slots[name]
         sites = set(g.sites_of_nodes([s["node"] for s in ss]))
         present = g.must_pass(sites, keep=keep)
@@ -234,8 +283,35 @@ def run(ck):
         if sv.get("k") == "member":
             static = True
         ok = bool(form) and not static
-        ck.ob("C18-O3", sitestr(fn, s["node"]), ok if (fresh or static) else None, "event_id = QUuid::createUuid().toString(QUuid::Id128), created inside format()" if ok else
-              "event_id = %s%s" % (describe(v), " (static: the same id for every event)" if static else ""), key="format|event-id")
+        helper_verdict = None
+        hv = skip_copies(v)
+        if not fresh and not static and isinstance(hv, dict) and hv.get("k") == "call" and hv.get("fn") in F.fns:
+            # the id comes from a helper of the repository: it must still be a fresh random UUID
+            hf = F.fns[hv["fn"]]
+            ck.touch(hf)
+            reach = F.reachable_from([hf])
+            called = set()
+            for fid in reach:
+                f2 = F.fns.get(fid)
+                if f2 is not None:
+                    called |= {strip_tmpl(c.get("callee") or "") for c in f2.calls()}
+            rnd = "QUuid::createUuid" in called
+            det = sorted(c for c in called if c in ("QUuid::createUuidV5", "QUuid::createUuidV3", "QCryptographicHash::hash", "qHash"))
+            if not rnd:
+                helper_verdict = (False, "event_id = %s, which never calls QUuid::createUuid()%s: the id is a function of the record, so identical records (same text, place and millisecond) share one id" %
+                                  (describe(hv)[:60], " (uses %s)" % det if det else ""))
+            else:
+                hr = returns(hf)
+                if len(hr) == 1:
+                    hvv = deref_local(hf, hr[0].get("e"))
+                    hn, _ = call_chain(hvv)
+                    okh = len(hn) == 2 and name_is(hn[0], "QUuid::toString") and name_is(hn[1], "QUuid::createUuid") and skip_copies(hvv).get("args") and const_int(skip_copies(hvv)["args"][0]) == 3
+                    helper_verdict = (True, "event_id = %s() = QUuid::createUuid().toString(QUuid::Id128)" % hf.name.split("::")[-1]) if okh else None
+        if helper_verdict is not None:
+            ck.ob("C18-O3", sitestr(fn, s["node"]), helper_verdict[0], helper_verdict[1], key="format|event-id")
+        else:
+            ck.ob("C18-O3", sitestr(fn, s["node"]), ok if (fresh or static) else None, "event_id = QUuid::createUuid().toString(QUuid::Id128), created inside format()" if ok else
+                  "event_id = %s%s" % (describe(v), " (static: the same id for every event)" if static else ""), key="format|event-id")
     s = single("timestamp")
     if s:
         v = deref_local(fn, s["value"])
